@@ -1087,6 +1087,12 @@ class Compiler:
         local_vars_set = set(self.locals)
         if isinstance(node.body, BlockStatement):
             self._collect_var_decls(node.body, local_vars_set)
+        # (as for ordinary functions: every var and function declaration of the body is a
+        # local from the start, and visible to the functions nested in the body)
+        for var in sorted(local_vars_set):
+            if var not in self.locals:
+                self.locals.append(var)
+        self._outer_locals.append(self.locals[:])
 
         # Find variables captured by inner functions
         captured = self._find_captured_vars(node.body, local_vars_set)
@@ -1095,6 +1101,8 @@ class Compiler:
         # Find all free variables needed
         required_free = self._find_required_free_vars(node.body, local_vars_set)
         self._free_vars = sorted(required_free)
+
+        self._outer_locals.pop()
 
         if node.expression:
             # Expression body: compile expression and return it
